@@ -63,7 +63,7 @@ def _proc_yaml(p, lim_quota):
     k, kind = p["key"], p["kind"]
     s = "  %s:\n" % k
     if kind == "Cond":
-        s += "    processor: Filter\n    parameters:\n      - key: header\n        value: \"x-%s=1\"\n" % k
+        s += "    processor: Filter\n    parameters:\n      - key: header\n        value: \"x-%s=1\"\n" % k.lower()
     elif kind == "Plain":
         s += "    processor: UserDefinedMetrics\n    parameters:\n      - key: metric_name\n        value: \"m_%s\"\n" % k
     elif kind == "Gen":
@@ -153,7 +153,7 @@ def tx(cfg, d, bits, url=TXURL, flow="A"):
     kinds = dict(steerable(cfg))
     for k, b in bits.items():
         if kinds.get(k) == "Cond" and b:
-            h["x-" + k] = "1"
+            h["x-" + k.lower()] = "1"
     t = {"id": tid, "dir": d, "method": "GET", "url": url, "headers": h, "flow": flow, "bits": bits}
     if d == "res":
         t["status"] = 200
@@ -161,7 +161,8 @@ def tx(cfg, d, bits, url=TXURL, flow="A"):
     if lims and d == "req":
         h["x-group"] = "g" + tid
         if any(bits.get(k) for k in lims):
-            t["pre"] = [{"id": tid + "w", "dir": "req", "method": "GET", "url": HOST + "/limonly", "headers": {"x-group": "g" + tid}}]
+            # the same request once before (not observed): every Limiter it reached has used up its group
+            t["pre"] = [{"id": tid + "w", "dir": "req", "method": "GET", "url": url, "headers": dict(h)}]
     return t
 
 
@@ -185,8 +186,12 @@ def standard_txs(cfg, max_inputs=16):
         if not fl.get("url"):
             continue
         for bits in ins:
+            pair = None
             for d in ("req", "res"):
-                txs.append(tx(cfg, d, bits, url=fl["url"], flow=fl["name"]))
+                t = tx(cfg, d, bits, url=fl["url"], flow=fl["name"])
+                pair = pair or t["id"]
+                t["pair"] = pair
+                txs.append(t)
     return txs
 
 
@@ -196,6 +201,15 @@ def make_case(cid, cfg, txs=None):
 
 
 DIRS = {"StreamTypeRequest": "req", "StreamTypeResponse": "res"}
+SYSFLOW = __import__("re").compile(r"^SystemFlow_(.*)_SYSTEM_FLOW_(?:START|END)$")
+
+
+def sid_order(seq, d):
+    out = []
+    for s in seq:
+        if s["dir"] == d and s.get("sid") and s["sid"] not in out:
+            out.append(s["sid"])
+    return out
 
 
 def run_cases(ctx, binary, cases, tag, natural=False, timeout=1500):
@@ -205,13 +219,15 @@ def run_cases(ctx, binary, cases, tag, natural=False, timeout=1500):
     d = ctx.sub("run-" + tag)
     cp, op = os.path.join(d, "cases.json"), os.path.join(d, "out.ndjson")
     slim = [{"id": c["id"], "files": c["files"], "limit": c["limit"],
-             "txs": [{k: v for k, v in t.items() if k not in ("flow", "bits", "kind")} for t in c["txs"]]} for c in cases]
+             "txs": [{k: v for k, v in t.items() if k not in ("flow", "bits", "kind", "pair")} for t in c["txs"]]} for c in cases]
     json.dump(slim, open(cp, "w"))
     ctx.run_harness(binary, ["run", cp, op] + (["natural"] if natural else []), timeout=timeout)
     evs = [e for e in read_ndjson(op) if e["ev"] != "begin"]
     for e in evs:
         for s in e.get("seq", []):
             s["dir"] = DIRS.get(s["dir"], s["dir"])
+            m = SYSFLOW.match(s["flow"])          # projection: system flow id from the generated flow name
+            s["sid"] = m.group(1) if m else ""
     os.remove(cp)
     return evs
 
@@ -232,11 +248,13 @@ def build_trace(cases, events):
         lines.append({"ev": "load", "id": c["id"], "cfg": c["cfg"], "outcome": ld["outcome"], "init": ld["init"]})
         refs.append((c, None, ld))
         txs = {t["id"]: t for t in c["txs"]}
+        reqorder = {e["tx"]: sid_order(e["seq"], "req") for e in evs if e["ev"] == "exec"}
         for e in evs:
             if e["ev"] != "exec":
                 continue
             t = txs[e["tx"]]
             lines.append({"ev": "exec", "id": c["id"] + "/" + e["tx"], "flow": t.get("flow", "A"), "dir": t["dir"], "seq": e["seq"],
+                          "sysreq": reqorder.get(t.get("pair"), []) if t["dir"] == "res" else [],
                           "outcome": e["outcome"], "steps": e["steps"] if e["steps"] >= 0 else 10 ** 6})
             refs.append((c, t, e))
     return lines, refs
@@ -282,3 +300,447 @@ def judge(ctx, lines, mode, tag, chunk=3000, par=6, timeout=900):
 
 
 SPEC = "c04_flow_graph"
+
+
+# ------------------------------------------------- seeded random configurations
+
+def random_flow(rng, name, url, keys, big, other=None):
+    """a random flow: mostly a forward graph (so that it is accepted), salted with back edges, undeclared conditions,
+    second entry points, duplicate connections, fan-out, early-response nodes with and without response connections"""
+    kinds = {}
+    for k in keys:
+        kinds[k] = rng.choice(["Cond", "Cond", "Plain", "Plain", "Gen", "Lim"] if big else ["Cond", "Plain", "Gen"])
+    order = list(keys)
+    rng.shuffle(order)
+
+    def direction(d):
+        conns = []
+        usable = [k for k in order if not (d == "res" and kinds[k] == "Lim" and rng.random() < 0.8)]
+        if not usable:
+            return [conn(S("start"), S("end"))]
+        noroot = rng.random() < (0.08 if d == "req" else 0.3)
+        if not noroot:
+            conns.append(conn(S("start"), P(usable[0])))
+        for i, k in enumerate(usable):
+            outs = OUTS[kinds[k]]
+            if kinds[k] == "Gen" and d == "req" and rng.random() < 0.93:
+                continue                                  # an answering processor has no request-side connection
+            if kinds[k] == "Lim" and d == "res" and rng.random() < 0.7:
+                continue
+            for o in outs:
+                n = rng.choice([0, 1, 1, 1, 2])
+                for _ in range(n):
+                    later = usable[i + 1:]
+                    r = rng.random()
+                    if later and r < 0.62:
+                        tgt = P(rng.choice(later))
+                    elif r < 0.9:
+                        tgt = S("end")
+                    else:
+                        tgt = P(rng.choice(usable))        # possibly a back edge / self loop
+                    c = o if rng.random() < 0.96 else rng.choice(["", "hit", "nope"])
+                    conns.append(conn(P(k, c), tgt))
+        if rng.random() < 0.05 and conns:
+            conns.append(dict(rng.choice(conns)))           # duplicate connection
+        if rng.random() < 0.05:
+            conns.append(conn(S("start"), P(rng.choice(usable))))   # second entry point
+        if other and rng.random() < 0.5:
+            src = rng.choice(usable)
+            conns.append(rng.choice([conn(P(src, rng.choice(OUTS[kinds[src]])), F(other, "start")), conn(F(other, "end"), P(src))]))
+        if rng.random() < 0.5:
+            rng.shuffle(conns)
+        return conns or [conn(S("start"), S("end"))]
+
+    req, res = direction("req"), direction("res")
+    # connect the answering processors to the response side most of the time
+    gens = [k for k in order if kinds[k] == "Gen"]
+    for g in gens:
+        if rng.random() < 0.85:
+            others = [k for k in order if k != g and kinds[k] != "Lim"]
+            n = rng.choice([1, 1, 1, 2])
+            for _ in range(n):
+                res.append(conn(P(g), P(rng.choice(others)) if others and rng.random() < 0.7 else S("end")))
+    return flow(name, [(k, kinds[k]) for k in keys], req, res, url=url)
+
+
+def random_config(rng, big):
+    n = rng.choice([2, 3, 3, 4] + ([4, 5] if big else []))
+    keys = ["a", "b", "c", "d", "e"][:n]
+    two = rng.random() < 0.25
+    flows = [random_flow(rng, "A", TXURL, keys, big, other=("B" if two else None))]
+    if two:
+        flows.append(random_flow(rng, "B", HOST + "/y", ["u", "v"][: rng.choice([1, 2])], False,
+                                 other=("A" if rng.random() < 0.1 else None)))
+    quotas = []
+    if rng.random() < 0.35:
+        for q in rng.sample([{"id": "qw", "kind": "conc", "url": HOST + "/*"}, {"id": "qx", "kind": "conc", "url": TXURL},
+                             {"id": "qf", "kind": "fixed", "url": TXURL}, {"id": "qy", "kind": "conc", "url": HOST + "/y"}],
+                            rng.choice([1, 2, 2, 3])):
+            quotas.append(q)
+    return {"flows": flows, "quotas": quotas}
+
+
+def handcrafted():
+    """configurations aimed at the parts of the statements the enumerated space does not contain"""
+    out = {}
+    two_conc = [{"id": "qw", "kind": "conc", "url": HOST + "/*"}, {"id": "qx", "kind": "conc", "url": TXURL}]
+    out["sysflows-early"] = {"flows": [flow("A", [("a", "Cond"), ("g", "Gen"), ("p", "Plain")],
+        [conn(S("start"), P("a")), conn(P("a", "hit"), P("g")), conn(P("a", "miss"), S("end"))],
+        [conn(S("start"), P("p")), conn(P("p"), S("end")), conn(P("g"), P("p"))])], "quotas": two_conc}
+    out["sysflows-plain"] = {"flows": [flow("A", [("p", "Plain")], [conn(S("start"), P("p")), conn(P("p"), S("end"))],
+        [conn(S("start"), P("p")), conn(P("p"), S("end"))])], "quotas": two_conc + [{"id": "qf", "kind": "fixed", "url": HOST + "/*"}]}
+    out["fanout-two-gens"] = {"flows": [flow("A", [("a", "Cond"), ("g1", "Gen"), ("g2", "Gen"), ("p", "Plain"), ("q", "Plain")],
+        [conn(S("start"), P("a")), conn(P("a", "hit"), P("g1")), conn(P("a", "hit"), P("g2")), conn(P("a", "hit"), P("q")),
+         conn(P("q"), S("end")), conn(P("a", "miss"), S("end"))],
+        [conn(P("g1"), P("p")), conn(P("g1"), P("q")), conn(P("p"), S("end")), conn(P("q"), S("end")), conn(P("g2"), S("end"))])], "quotas": []}
+    out["diamond"] = {"flows": [flow("A", [("a", "Cond"), ("b", "Plain"), ("c", "Plain"), ("d", "Cond"), ("e", "Plain")],
+        [conn(S("start"), P("a")), conn(P("a", "hit"), P("b")), conn(P("a", "hit"), P("c")), conn(P("a", "miss"), P("c")),
+         conn(P("b"), P("d")), conn(P("c"), P("d")), conn(P("d", "hit"), P("e")), conn(P("d", "miss"), S("end")), conn(P("e"), S("end"))],
+        [conn(S("start"), P("d")), conn(P("d", "hit"), P("e")), conn(P("d", "miss"), P("b")), conn(P("e"), P("b")), conn(P("b"), S("end"))])],
+        "quotas": []}
+    out["limiter"] = {"flows": [flow("A", [("l", "Lim"), ("m", "Lim"), ("g", "Gen"), ("p", "Plain")],
+        [conn(S("start"), P("l")), conn(P("l", "below_limit"), P("m")), conn(P("l", "above_limit"), P("g")),
+         conn(P("m", "below_limit"), P("p")), conn(P("m", "above_limit"), P("g")), conn(P("p"), S("end"))],
+        [conn(P("g"), P("p")), conn(P("p"), S("end"))])], "quotas": []}
+    out["prefix-suffix-flows"] = {"flows": [
+        flow("A", [("a", "Cond"), ("g", "Gen"), ("w", "Plain")],
+             [conn(F("B", "end"), P("a")), conn(P("a", "hit"), P("g")), conn(P("a", "miss"), S("end"))],
+             [conn(S("start"), P("w")), conn(P("w"), F("B", "start")), conn(P("g"), F("B", "start"))]),
+        flow("B", [("u", "Plain"), ("v", "Plain")], [conn(S("start"), P("u")), conn(P("u"), S("end"))],
+             [conn(S("start"), P("v")), conn(P("v"), S("end"))], url=HOST + "/y")], "quotas": []}
+    out["response-side-cycle-behind-gen"] = {"flows": [flow("A", [("g", "Gen"), ("p", "Plain"), ("q", "Plain"), ("r", "Plain")],
+        [conn(S("start"), P("q")), conn(P("q"), P("g"))],
+        [conn(S("start"), P("r")), conn(P("r"), S("end")), conn(P("g"), P("p")), conn(P("p"), P("q")), conn(P("q"), P("p"))])], "quotas": []}
+    out["self-reference"] = {"flows": [flow("A", [("p", "Plain")], [conn(S("start"), P("p")), conn(P("p"), F("A", "start"))],
+        [conn(S("start"), S("end"))])], "quotas": []}
+    return out
+
+
+# ------------------------------------------------ C05: traffic and quota files the model does not describe
+
+def malformed_txs(rng, n):
+    """seeded malformed transactions (content is opaque to the specification: the only claim is that handling
+    returns within the step bound without panic)"""
+    bodies = [b"\xff\xfe\x00garbage\x80", b"{\"a\": [1, 2,", b"\x1f\x8b\x08\x00broken-gzip", b"", b"{" * 2000 + b"}" * 1999,
+              b"\x00" * 64, "😀".encode("utf-16-le"), b"[" * 300]
+    blobs = [b"\x00\xff: a\r\nno-colon-line\r\n: emptykey\r\n", b"x-a: 1\r\nx-a: 2\r\n\r\n\r\n", b"\r\n\r\n", b"a:b:c:d\ne\n",
+             b"x-a" + b" " * 500 + b":1", b"content-encoding: gzip\r\nx-a: 1\r\n", b"\xc3\x28: \xa0\xa1\r\n", b":" * 100]
+    urls = [TXURL, TXURL, TXURL, "", "/", "%%%", TXURL + "?%zz=1&&&=", "http://[::1", HOST + "/" + "x/" * 300, HOST + "/x\r\nx-a: 1",
+            HOST + ":99999/x", "h.test//x", TXURL + "#frag", "H.TEST/X", " " + TXURL, TXURL + "/../../y"]
+    methods = ["GET", "POST", "", "GET\r\nX", "ü", "get"]
+    statuses = [200, 0, -1, 99999, 418, 2 ** 31 - 1]
+    out = []
+    for i in range(n):
+        d = rng.choice(["req", "res"])
+        _txn[0] += 1
+        t = {"id": "m%d" % _txn[0], "dir": d, "method": rng.choice(methods), "url": rng.choice(urls), "headers": {},
+             "flow": "A", "bits": {}, "kind": "malformed", "full": rng.random() < 0.5}
+        if rng.random() < 0.7:
+            t["headers_raw_b64"] = b64(rng.choice(blobs))
+        if rng.random() < 0.4:
+            t["headers"] = {rng.choice(["x-a", "x-b", "content-encoding", "content-type", "x-group"]): rng.choice(["1", "gzip", "deflate", "", "\x7f"])}
+        if rng.random() < 0.8:
+            t["body_b64"] = b64(rng.choice(bodies))
+        if d == "res":
+            t["status"] = rng.choice(statuses)
+        out.append(t)
+    return out
+
+
+QUOTA_FILES = {
+    "valid-two-paths": ("quotas:\n  - id: q1\n    filter:\n      url: h.test/x\n    strategy:\n      fixed_window:\n        max: 5\n        interval: 1\n        interval_unit: minute\n"
+                        "  - id: q2\n    filter:\n      url: h.test/*\n    strategy:\n      concurrent:\n        max_request_count: 3\n", None),
+    "valid-children-percentages": ("quotas:\n  - id: parent\n    filter:\n      url: h.test/*\n    strategy:\n      fixed_window:\n        max: 10\n        interval: 1\n        interval_unit: minute\n"
+                                   "internal_limits:\n  - id: childA\n    parent_id: parent\n    filter:\n      url: h.test/x\n    strategy:\n      allocation_percentage: 60\n"
+                                   "  - id: childB\n    parent_id: parent\n    filter:\n      url: h.test/x\n      headers:\n        - key: x-a\n          value: \"1\"\n    strategy:\n      allocation_percentage: 40\n", None),
+    "missing-filter": ("quotas:\n  - id: q1\n    strategy:\n      fixed_window:\n        max: 5\n        interval: 1\n        interval_unit: minute\n", None),
+    "two-hosts-one-file": ("quotas:\n  - id: q1\n    filter:\n      url: h.test/x\n    strategy:\n      fixed_window:\n        max: 5\n        interval: 1\n        interval_unit: minute\n"
+                           "  - id: q2\n    filter:\n      url: other.test/x\n    strategy:\n      fixed_window:\n        max: 5\n        interval: 1\n        interval_unit: minute\n", None),
+    "unknown-parent": ("quotas:\n  - id: q1\n    filter:\n      url: h.test/x\n    strategy:\n      fixed_window:\n        max: 5\n        interval: 1\n        interval_unit: minute\n"
+                       "internal_limits:\n  - id: c1\n    parent_id: nobody\n    filter:\n      url: h.test/x\n    strategy:\n      allocation_percentage: 50\n", None),
+    "percentages-over-100": ("quotas:\n  - id: parent\n    filter:\n      url: h.test/*\n    strategy:\n      fixed_window:\n        max: 10\n        interval: 1\n        interval_unit: minute\n"
+                             "internal_limits:\n  - id: c1\n    parent_id: parent\n    filter:\n      url: h.test/x\n    strategy:\n      allocation_percentage: 80\n"
+                             "  - id: c2\n    parent_id: parent\n    filter:\n      url: h.test/x\n    strategy:\n      allocation_percentage: 150\n", None),
+    "child-is-own-parent": ("quotas:\n  - id: parent\n    filter:\n      url: h.test/*\n    strategy:\n      fixed_window:\n        max: 10\n        interval: 1\n        interval_unit: minute\n"
+                            "internal_limits:\n  - id: c1\n    parent_id: c1\n    filter:\n      url: h.test/x\n    strategy:\n      allocation_percentage: 50\n", None),
+    "spillover-without-renewal": ("quotas:\n  - id: q1\n    filter:\n      url: h.test/x\n    strategy:\n      fixed_window:\n        max: 5\n        interval: 1\n        interval_unit: month\n        spillover:\n          max: 3\n", None),
+    "negative-max": ("quotas:\n  - id: q1\n    filter:\n      url: h.test/x\n    strategy:\n      fixed_window:\n        max: -5\n        interval: 0\n        interval_unit: fortnight\n", None),
+    "no-strategy": ("quotas:\n  - id: q1\n    filter:\n      url: h.test/x\n", None),
+    "empty-strategy": ("quotas:\n  - id: q1\n    filter:\n      url: h.test/x\n    strategy: {}\n", None),
+    "duplicate-ids": ("quotas:\n  - id: q1\n    filter:\n      url: h.test/x\n    strategy:\n      concurrent:\n        max_request_count: 3\n"
+                      "  - id: q1\n    filter:\n      url: h.test/x\n    strategy:\n      concurrent:\n        max_request_count: 4\n", None),
+    "empty-file": ("", None),
+    "garbage-yaml": ("quotas: [unclosed\n  - id: {\n", None),
+    "null-entries": ("quotas:\n  -\n  - id: q1\n    filter:\n      url: h.test/x\n    strategy:\n      concurrent:\n        max_request_count: 3\ninternal_limits:\n  -\n", None),
+    "header-based": ("quotas:\n  - id: q1\n    filter:\n      url: h.test/x\n    strategy:\n      header_based:\n        quota_header: x-remaining\n        reset_header: x-reset\n", None),
+    "same-host-two-files": ("quotas:\n  - id: q1\n    filter:\n      url: h.test/x\n    strategy:\n      concurrent:\n        max_request_count: 3\n",
+                            "quotas:\n  - id: q2\n    filter:\n      url: h.test/y\n    strategy:\n      concurrent:\n        max_request_count: 3\n"),
+    "monthly-renewal-bad-day": ("quotas:\n  - id: q1\n    filter:\n      url: h.test/x\n    strategy:\n      fixed_window:\n        max: 5\n        interval: 1\n        interval_unit: month\n"
+                                "        monthly_renewal:\n          day: 42\n          hour: 25\n          minute: 61\n          timezone: Mars\n", None),
+    "limiter-quota-missing": (None, None),
+}
+
+
+def quota_cases(rng):
+    """quota files (valid and invalid) next to a small valid flow; the abstract configuration does not describe them
+    (nomodel): only the loader claims of C05 apply"""
+    base = {"flows": [flow("A", [("a", "Cond"), ("g", "Gen"), ("p", "Plain")],
+                           [conn(S("start"), P("a")), conn(P("a", "hit"), P("g")), conn(P("a", "miss"), S("end"))],
+                           [conn(S("start"), P("p")), conn(P("p"), S("end")), conn(P("g"), P("p"))])], "quotas": []}
+    cases = []
+    for name, (f1, f2) in sorted(QUOTA_FILES.items()):
+        c = make_case("quota-" + name, base)
+        c["nomodel"] = True
+        if f1 is None:
+            lim = {"flows": [flow("A", [("l", "Lim")], [conn(S("start"), P("l")), conn(P("l", "below_limit"), S("end"))],
+                                  [conn(S("start"), S("end"))])], "quotas": []}
+            c = make_case("quota-" + name, lim)
+            c["nomodel"] = True
+            c["files"].pop("quotas/quotas.yaml", None)
+        else:
+            c["files"]["quotas/q1.yaml"] = f1
+            if f2 is not None:
+                c["files"]["quotas/q2.yaml"] = f2
+        c["txs"] = c["txs"] + malformed_txs(rng, 4)
+        cases.append(c)
+    return cases
+
+
+# ------------------------------------------------------------------ driver
+
+NONVAC = {   # model variants that must be refuted by TLC (non-vacuity): the code before each repair / witnesses of reachability
+    "C04": {"quick": [("MC_nv_c04_nostop.cfg", "sibling edges iterated after an answer"),
+                      ("MC_nv_c04_noresume.cfg", "response walk resumed at edges[0] only / skipped without root"),
+                      ("MC_nv_wit_answer.cfg", "witness: some walk is answered by a Gen and continues on the response side")],
+            "thorough": [("MC_nv_c04_noexit.cfg", "exits of a flow referenced with 'from: flow at end' not linked on the response side"),
+                         ("MC_nv_wit_fanout.cfg", "witness: some processor runs twice in one walk (fan-out reconverging)")]},
+    "C05": {"quick": [("MC_nv_c05_rootcycles.cfg", "cycle check only from the root's edges"),
+                      ("MC_nv_c05_norefcheck.cfg", "circular flow reference recursing without end")],
+            "thorough": [("MC_nv_wit_answer.cfg", "witness: some walk is answered by a Gen and continues on the response side")]},
+}
+
+
+def export_configs(ctx, tier):
+    import os, shutil
+    from vlib import Broken
+    sd = ctx.spec_dir(SPEC)
+    wd = os.path.join(ctx.scratch, "gen-" + tier)
+    if os.path.isdir(wd):
+        shutil.rmtree(wd)
+    shutil.copytree(sd, wd)
+    r = ctx.tlc(wd, "GenExportC04", "GenExport_%s.cfg" % tier, workers=1, timeout=1500, label="configuration space export (%s)" % tier)
+    p = os.path.join(wd, "gen_configs.json")
+    if not r.ok or not os.path.exists(p):
+        raise Broken("configuration export failed: %r\n%s" % (r, r.out[-2000:]))
+    d = json.load(open(p))["configs"]
+    shutil.rmtree(wd, ignore_errors=True)
+    d.sort(key=lambda x: json.dumps(x["cfg"], sort_keys=True))
+    return d
+
+
+def model_check(ctx, prop, tier):
+    """exhaustive I => P on the tier's configuration space + the variants that must be refuted"""
+    import os, shutil
+    from vlib import Broken, parallel
+    sd = ctx.spec_dir(SPEC)
+
+    def fresh(tag):
+        wd = os.path.join(ctx.scratch, "mc-" + tag)
+        if not os.path.isdir(wd):
+            shutil.copytree(sd, wd)
+        return wd
+
+    jobs = [("main", "MC_%s_%s.cfg" % (tier, prop.lower()), None)]
+    nv = list(NONVAC[prop]["quick"]) + (NONVAC[prop]["thorough"] if ctx.thorough else [])
+    jobs += [("nv%d" % i, cfg, why) for i, (cfg, why) in enumerate(nv)]
+
+    def one(job):
+        tag, cfg, why = job
+        wd = fresh(tag)
+        if why is None:
+            return ctx.tlc_exhaustive(wd, "MC_C04", cfg, timeout=3000, workers=(8 if ctx.thorough else 3),
+                                      label="I => P over the %s configuration space (%s)" % (tier, prop))
+        r = ctx.tlc(wd, "MC_C04", cfg, timeout=1500, workers=2, label="must be refuted: " + why)
+        if r.violated is None:
+            raise Broken("non-vacuity: TLC did not refute '%s' (%s): %r" % (why, cfg, r))
+        return r
+    parallel(one, jobs, n=len(jobs))
+
+
+def exercise(ctx, prop, binary, cases, tag, reported, drift=True):
+    """run the cases on the real code, let TLC judge every event for `prop`, reproduce and report rejections"""
+    from vlib import Broken
+    evs = run_cases(ctx, binary, cases, tag)
+    lines, refs = build_trace(cases, evs)
+    rej = judge(ctx, lines, prop, tag)
+    bad = {i for i, _ in rej}
+    ctx.cov["evaluations"] += len(lines)
+    ctx.cov["traces_validated_against_impl"] += len(lines) - len(bad)
+    if drift:
+        keep = [i for i, (c, t, e) in enumerate(refs) if not c.get("nomodel")]
+        sub = [lines[i] for i in keep if lines[i]["ev"] == "load"]
+        dr = judge(ctx, sub, "I", tag + "-i")
+        if dr:
+            ctx.cov["model_drift"] = True
+            ex = sub[dr[0][0]]
+            ctx.notes.append("MODEL-DRIFT (%s): the real loader and the loader model FlowGraphI disagree on %d of %d configurations, e.g. %s: real=%s %s" % (
+                tag, len(dr), len(sub), ex["id"], ex["outcome"], dr[0][1]))
+            ctx.log("MODEL-DRIFT %s: %d configurations (first: %s real=%s %s)" % (tag, len(dr), ex["id"], ex["outcome"], dr[0][1]))
+    # reproduce (deterministic driver: once) - at most 3 per reason
+    per = {}
+    for i, why in rej:
+        c, t, e = refs[i]
+        if per.get(why, 0) >= 3:
+            reported.setdefault("more", {}).setdefault(why, 0)
+            reported["more"][why] += 1
+            continue
+        per[why] = per.get(why, 0) + 1
+        evs2 = run_cases(ctx, binary, [c], tag + "-repro", natural=(prop == "C05"))
+        l2, r2 = build_trace([c], evs2)
+        rej2 = {l2[j]["id"]: w for j, w in judge(ctx, l2, prop, tag + "-repro")}
+        if lines[i]["id"] not in rej2:
+            raise Broken("rejection not reproduced (%s %s): %s" % (tag, why, json.dumps(lines[i])[:800]))
+        real = [x for x in evs2 if (x["ev"] == "load" and t is None) or (t is not None and x.get("tx") == t["id"])]
+        witness = {"class": rej2[lines[i]["id"]], "case": c["id"], "outcome": lines[i]["outcome"],
+                   "detail": (real[0].get("err", "") if real else "")[:300]}
+        if t is not None:
+            witness.update({"dir": t["dir"], "bits": t.get("bits", {}), "executed": [[s["flow"], s["key"], s["dir"], s["out"]] for s in lines[i]["seq"][:24]]})
+        ctx.violation(witness, {"mode": prop, "case": {k: c[k] for k in ("id", "cfg", "files", "txs", "limit")}, "line": lines[i]["id"]})
+    return lines, refs, bad
+
+
+def nontrivial_c04(line):
+    if line["ev"] != "exec" or line["outcome"] not in ("ok", "error"):
+        return False
+    user = [s for s in line["seq"] if not s.get("sid")]
+    return len(user) >= 2 and (any(s["out"] for s in user) or any(s["dir"] == "res" for s in user) and line["dir"] == "req")
+
+
+def run_property(ctx, prop):
+    import os
+    from vlib import Broken, parallel
+    T = ctx.thorough
+    tier = "thorough" if T else "quick"
+    binary = ctx.build_harness("c04")
+    ctx.cov["checker_cmd"] = ("tlc -config MC_%s_%s.cfg MC_C04.tla ; tlc -config GenExport_%s.cfg GenExportC04.tla ; "
+                              "tlc -config FlowTrace_%s.cfg FlowTrace.tla" % (tier, prop.lower(), tier, prop))
+    ctx.cov["trusted_base"] = ["TLC", "CommunityModules Json", "Go toolchain",
+                               "checks/_flowgraph.py rendering of the abstract configuration to YAML (registry processors Filter / "
+                               "UserDefinedMetrics / GenerateResponse / Limiter) and projection of flow names to system flow ids",
+                               "verifhook point proc.exec (flow, key, dir, out) after Processor.Execute",
+                               "harness/cmd/c04 child-process isolation (panic / fatal error / step limit become outcomes)"]
+    reported = {}
+    seen_nt, seen_cfg = set(), set()
+
+    def account(lines, refs, bad):
+        for i, ln in enumerate(lines):
+            c, t, e = refs[i]
+            key = json.dumps(c["cfg"], sort_keys=True) + json.dumps(c.get("files", {}).get("quotas/q1.yaml", ""))
+            if prop == "C04":
+                if nontrivial_c04(ln):
+                    seen_nt.add(key + json.dumps([t.get("bits"), t["dir"], t.get("flow")], sort_keys=True))
+            else:
+                if ln["ev"] == "load" and ln["outcome"] == "rejected":
+                    seen_cfg.add(key)
+                if ln["ev"] == "exec" and ln["steps"] >= 1:
+                    seen_cfg.add(key)
+        ctx.cov["distinct_nontrivial"] = len(seen_nt) if prop == "C04" else len(seen_cfg)
+
+    # (1) exhaustive model checking and (2) generation of the configuration space run side by side
+    ctx.spec_dir(SPEC)      # scratch copy of the specs made once, before the threads start
+    res = parallel(lambda f: f(), [lambda: model_check(ctx, prop, tier), lambda: export_configs(ctx, tier)], n=2)
+    gen = res[1]
+    acc = [g for g in gen if g["accepts"] == "accepted"]
+    oth = [g for g in gen if g["accepts"] != "accepted"]
+    na, no = (700, 500) if not T else (9000, 4000)
+    ctx.rng.shuffle(acc)
+    ctx.rng.shuffle(oth)
+    sel = acc[:na] + oth[:no]
+    ctx.cov["exhaustive"] = len(sel) == len(gen)
+    ctx.log("configuration space %s: %d configurations (%d accepted by the model); replaying %d" % (tier, len(gen), len(acc), len(sel)))
+    cases = [make_case("g%d" % i, g["cfg"]) for i, g in enumerate(sel)]
+    lines, refs, bad = exercise(ctx, prop, binary, cases, "gen", reported)
+    account(lines, refs, bad)
+    k = next((i for i, l in enumerate(lines) if nontrivial_c04(l)), None)
+    if k is not None:
+        ctx.sample({"kind": "generated configuration + real execution", "flow_yaml": refs[k][0]["files"]["flows/A.yaml"][-900:],
+                    "transaction": {"dir": lines[k]["dir"], "bits": refs[k][1].get("bits")},
+                    "executed": [[s["key"], s["dir"], s["out"]] for s in lines[k]["seq"]]})
+
+    # (3) code -> spec: seeded random configurations beyond the enumerated space + hand-written ones
+    nr = 350 if not T else 4000
+    rcases = [make_case("h-" + k, v) for k, v in sorted(handcrafted().items())]
+    rcases += [make_case("r%d" % i, random_config(ctx.rng, True)) for i in range(nr)]
+    if prop == "C05":
+        for c in rcases[:: (6 if not T else 4)]:
+            c["txs"] = c["txs"] + malformed_txs(ctx.rng, 6 if not T else 12)
+        rcases += quota_cases(ctx.rng)
+    lines2, refs2, bad2 = exercise(ctx, prop, binary, rcases, "rand", reported)
+    account(lines2, refs2, bad2)
+    k = next((i for i, l in enumerate(lines2) if l["ev"] == "exec" and any(s.get("sid") for s in l["seq"]) and l["dir"] == "req"), None)
+    if k is not None:
+        ctx.sample({"kind": "recorded transaction with system flows", "executed": [[s["flow"], s["key"], s["dir"], s["out"]] for s in lines2[k]["seq"]]})
+    nload = sum(1 for l in lines + lines2 if l["ev"] == "load")
+    nacc = sum(1 for l in lines + lines2 if l["ev"] == "load" and l["outcome"] == "accepted")
+    ctx.log("real loader: %d configurations loaded, %d accepted; %d transactions executed; %d events rejected by the specification" % (
+        nload, nacc, sum(1 for l in lines + lines2 if l["ev"] == "exec"), len(bad) + len(bad2)))
+    if nacc < 50 or not any(nontrivial_c04(l) for l in lines + lines2):
+        raise Broken("vacuous run: %d accepted configurations" % nacc)
+    for why, n in reported.get("more", {}).items():
+        ctx.notes.append("%d further rejections of class %s not reproduced individually" % (n, why))
+
+    # (4) binding self-test (thorough): corrupted recordings must be rejected by TLC
+    if T:
+        allr = [(l, r) for l, r in zip(lines + lines2, refs + refs2)]
+        good = [l for l, r in allr if l["ev"] == "exec" and l["outcome"] == "ok" and len([s for s in l["seq"] if not s.get("sid")]) >= 2
+                and not any(s.get("sid") for s in l["seq"]) and len({s["key"] for s in l["seq"]}) == len(l["seq"])][:40]
+        loads = {l["id"]: l for l, r in allr if l["ev"] == "load"}
+        if len(good) < 10:
+            raise Broken("self-test: not enough recorded walks")
+        corrupted, expect = [], []
+        for g in good:
+            ld = loads[g["id"].split("/")[0]]
+            for variant in ("swap", "drop", "crash", "steps"):
+                e = json.loads(json.dumps(g))
+                if variant == "swap":
+                    e["seq"][0], e["seq"][1] = e["seq"][1], e["seq"][0]
+                elif variant == "drop":
+                    e["seq"] = e["seq"][:-1]
+                elif variant == "crash":
+                    e["outcome"] = "crash"
+                else:
+                    e["steps"] = 10 ** 6
+                e["id"] = g["id"] + "#" + variant
+                corrupted += [ld, e]
+                expect.append((len(corrupted) - 1, variant))
+        rejc = {i for i, _ in judge(ctx, corrupted, prop, "selftest")}
+        want = {"C04": ("swap", "drop"), "C05": ("crash", "steps")}[prop]
+        missed = [(i, v) for i, v in expect if v in want and i not in rejc]
+        if missed:
+            raise Broken("self-test: %d corrupted recordings accepted, e.g. %s" % (len(missed), json.dumps(corrupted[missed[0][0]])[:600]))
+        ctx.notes.append("self-test: %d corrupted recordings (%s) all rejected by FlowTrace/%s" % (
+            sum(1 for _, v in expect if v in want), "/".join(want), prop))
+
+
+def replay_property(ctx, prop, path):
+    obj = json.load(open(path))
+    rp = obj["replay"]
+    binary = ctx.build_harness("c04")
+    c = rp["case"]
+    evs = run_cases(ctx, binary, [c], "replay", natural=(prop == "C05"))
+    lines, refs = build_trace([c], evs)
+    rej = dict((lines[i]["id"], w) for i, w in judge(ctx, lines, prop, "replay"))
+    for l in lines:
+        if l["ev"] == "load":
+            print("load %s: %s init=%s" % (l["id"], l["outcome"], l["init"]))
+        else:
+            print("exec %s %s %s steps=%s: %s%s" % (l["id"], l["dir"], l["outcome"], l["steps"],
+                  " ".join("%s/%s:%s" % (s["key"], s["dir"], s["out"] or "-") for s in l["seq"][:30]),
+                  ("   <-- REJECTED: " + rej[l["id"]]) if l["id"] in rej else ""))
+    if rej:
+        print("VIOLATION property=%s replay=%s" % (prop, path))
+        for k, w in list(rej.items())[:5]:
+            print("   rejected %s: %s" % (k, w))
+        return 1
+    print("replay accepted by the specification")
+    return 0
